@@ -27,12 +27,11 @@ LEVEL_TEXT = ('Lean 4 theorems (Mathlib matrices), for every basis matrix B with
               'leaves a smaller sum of squares; permuting the requested modes permutes the coefficients. The executable model (basis from the '
               'C11 mode model, Cramer solution of the normal equations, compose, remove — wired through the REGENERATED call-site argument projections) is proved equal to these abstract objects; IsUnit det(BtB) is proved equivalent to linear independence of the sampled modes over ordered fields; remove leaves samples outside the mask untouched; a '
               'coefficient vector for zernike_compose with the coefficients at the (regenerated) positions of the requested modes composes '
-              'B·c; the two einsum contractions are REGENERATED from their subscript strings (Gen.fitContract / Gen.removeContract: the model\'s B·c is the generated contraction, and the generated fit contraction applied to the transposed pseudo-inverse is the abstract fit), the sample numbering of opd.ravel() and basis.reshape(k,-1) is regenerated with its order and proved to agree (C order on both sides); and three concrete Zernike bases (two unnormalised over Q with an all-true mask; one with the DEFAULT normalisation over R on a partial mask: modes [1,2,3], a masked-out sample, det(BtB) = 36) (one ray; a 2x2 array with cosine, sine and radial modes) satisfy the independence hypothesis. PARTIAL: that np.linalg.pinv(basis)·opd is the '
+              'B·c; the OPD selection `np.where(mask != 0, opd, 0)` of zernike_fit (89e13b8) is REGENERATED (Gen.fitSelect) and consumed by the model and the driver: samples outside the mask do not influence the fit, by the selection itself and for any scalar type incl. Float NaN/inf (fit_ignores_outside_mask); the two einsum contractions are REGENERATED from their subscript strings (Gen.fitContract / Gen.removeContract: the model\'s B·c is the generated contraction, and the generated fit contraction applied to the transposed pseudo-inverse is the abstract fit), the sample numbering of opd.ravel() and basis.reshape(k,-1) is regenerated with its order and proved to agree (C order on both sides); and three concrete Zernike bases (two unnormalised over Q with an all-true mask; one with the DEFAULT normalisation over R on a partial mask: modes [1,2,3], a masked-out sample, det(BtB) = 36) (one ray; a 2x2 array with cosine, sine and radial modes) satisfy the independence hypothesis. PARTIAL: that np.linalg.pinv(basis)·opd is the '
               'normal-equation solution, and that the code builds exactly this basis, are checked by correspondence only.')
 LEVEL_NOTE = ('Sign convention inherited from C11: odd-j modes are -sin(|m| theta) (the code evaluates sin(m theta) with m < 0), opposite to Noll (1976); fit, compose and remove use the same basis, so every clause here is independent of it. Trusted: Lean kernel and Mathlib; np.linalg.pinv(basis) = (BᵀB)⁻¹Bᵀ for full column rank and np.einsum contractions (compared on '
               'every call with the Lean model run at Float; basis/compose values to 1e-8, fit/remove to 1e-10 x max(1, cond²) — the bound on the Float model\'s own rounding — while '
-              'the property itself is judged on the library\'s results at 1e-12 x cond); the harness\'s numpy reference for conditioning and coordinates; float rounding; generator coverage (histories of '
-              '6-9 calls, layouts, dtypes).')
+              'the property itself is judged on the library\'s results at 1e-12 x cond); the harness\'s numpy reference for conditioning and coordinates; float rounding; generator coverage (general histories of 6-9 calls; the ill-conditioned, medium-conditioned, duplicate-mode and non-finite-outside classes have 1-4 calls each; layouts, dtypes).')
 TECHNIQUE = 'Lean 4 proof over Mathlib matrices + executable Lean model of basis/fit/compose/remove with differential correspondence on call histories'
 GEN = ['ZernikeCalls', 'ZernikeR', 'Mesh', 'Util', 'Helper', 'Helper20', 'Hex', 'Extent', 'FieldAccum', 'FieldDispatch', 'FieldIdx', 'FieldMerge']      # every Gen module imported transitively
 OPS = ['C11', 'C12']
